@@ -214,6 +214,9 @@ Definition set_policy (p : policy) (w : world) : world :=
 Definition ctor_policy (p : option policy) : option policy :=
   match p with None => Some PIgnore | Some q => Some q end.
 
+(** the name lookups of Logging: findCreateLog( name), getLog( name) and log( name, msg)
+    each walk mLogs in creation order and take the first entry whose name is EQUAL to
+    the requested one ([name == it.mName] / [log_name == it.mName]): position and entry *)
 Fixpoint find_log (name : string) (ls : list logdata) (i : nat) : option (nat * logdata) :=
   match ls with
   | [] => None
@@ -238,16 +241,64 @@ Definition find_create_log (w : world) (name : string) : res (world * N) :=
   end.
 
 Inductive target := TgLog (l : string) | TgDest (l d : string).
+Definition target_log (tg : target) : string := match tg with TgLog l => l | TgDest l _ => l end.
+Definition target_dest (tg : target) : option string :=
+  match tg with TgLog _ => None | TgDest _ d => Some d end.
 Inductive op :=
 | OPolicy (p : policy)
 | ONewLog (name : string)
-| OAddDest (l d : string)            (* getLog( l)->addDestination( d, new <destination>) *)
-| OSet (tg : target) (s : setting).  (* getLog( l)[->getDestination( d)]-><setting> *)
+| OAddDest (l d : string)            (* getLog( l)->addDestination( d, new <destination>), l by name *)
+| OSet (tg : target) (s : setting)   (* getLog( l)[->getDestination( d)]-><setting>, l by name *)
+| OAddDestId (ids : N) (d : string)  (* the same with the log given by its id: getLog( id_t) *)
+| OSetId (ids : N) (dest : option string) (s : setting).
 Inductive opres := RId (n : N) | ROk | RNoLog | RErr (e : err) | RFault (f : fault).
 
 Definition set_log (w : world) (i : nat) (d : logdata) (l : log) : world :=
   {| pol := pol w; next_bit := next_bit w;
      logs := replace_nth i {| lbit := lbit d; lname := lname d; llog := l |} (logs w) |}.
+
+(** Logging::getLog( id_t) with the position of the log *)
+Fixpoint get_log_id_idx (ls : list logdata) (ids : N) (i : nat) : res (option (nat * logdata)) :=
+  match ls with
+  | [] => Ok None
+  | ld :: r =>
+      if N.testbit ids (N.of_nat (lbit ld)) then
+        (if N.eqb ids (id_of_bit (lbit ld)) then Ok (Some (i, ld)) else Err ERuntime)
+      else get_log_id_idx r ids (S i)
+  end.
+
+(** <log i>->addDestination( dn, new <destination>): the new destination is a Filters object *)
+Definition add_dest_at (w : world) (i : nat) (d : logdata) (dn : string) : world * opres :=
+  let w' := set_log w i d {| lfil := lfil (llog d);
+                             ldests := ldests (llog d) ++ [{| dname := dn; dfil := new_filters |}] |} in
+  ({| pol := ctor_policy (pol w); next_bit := next_bit w'; logs := logs w' |}, ROk).
+
+(** <log i>[->getDestination( dn)]-><setting> *)
+Definition set_at (w : world) (i : nat) (d : logdata) (dest : option string) (s : setting)
+  : world * opres :=
+  match pol w with
+  | None => (w, RFault NullDeref)
+  | Some p =>
+      match dest with
+      | None =>
+          match check_set_filter p s (lfil (llog d)) with
+          | Ok fs => (set_log w i d {| lfil := fs; ldests := ldests (llog d) |}, ROk)
+          | Err e => (w, RErr e) | Fault f => (w, RFault f)
+          end
+      | Some dn =>
+          match find_dest dn (ldests (llog d)) 0 with
+          | None => (w, RErr ERuntime)      (* Log::getDestination throws *)
+          | Some (j, dd) =>
+              match check_set_filter p s (dfil dd) with
+              | Ok fs =>
+                  (set_log w i d {| lfil := lfil (llog d);
+                                    ldests := replace_nth j {| dname := dname dd; dfil := fs |}
+                                                          (ldests (llog d)) |}, ROk)
+              | Err e => (w, RErr e) | Fault f => (w, RFault f)
+              end
+          end
+      end
+  end.
 
 Definition step (w : world) (o : op) : world * opres :=
   match o with
@@ -259,39 +310,24 @@ Definition step (w : world) (o : op) : world * opres :=
   | OAddDest l dn =>
       match find_log l (logs w) 0 with
       | None => (w, RNoLog)
-      | Some (i, d) =>
-          let w' := set_log w i d {| lfil := lfil (llog d);
-                                     ldests := ldests (llog d) ++ [{| dname := dn; dfil := new_filters |}] |} in
-          ({| pol := ctor_policy (pol w); next_bit := next_bit w'; logs := logs w' |}, ROk)
+      | Some (i, d) => add_dest_at w i d dn
       end
   | OSet tg s =>
-      let ln := match tg with TgLog l => l | TgDest l _ => l end in
-      match find_log ln (logs w) 0 with
+      match find_log (target_log tg) (logs w) 0 with
       | None => (w, RNoLog)
-      | Some (i, d) =>
-          match pol w with
-          | None => (w, RFault NullDeref)
-          | Some p =>
-              match tg with
-              | TgLog _ =>
-                  match check_set_filter p s (lfil (llog d)) with
-                  | Ok fs => (set_log w i d {| lfil := fs; ldests := ldests (llog d) |}, ROk)
-                  | Err e => (w, RErr e) | Fault f => (w, RFault f)
-                  end
-              | TgDest _ dn =>
-                  match find_dest dn (ldests (llog d)) 0 with
-                  | None => (w, RErr ERuntime)      (* Log::getDestination throws *)
-                  | Some (j, dd) =>
-                      match check_set_filter p s (dfil dd) with
-                      | Ok fs =>
-                          (set_log w i d {| lfil := lfil (llog d);
-                                            ldests := replace_nth j {| dname := dname dd; dfil := fs |}
-                                                                  (ldests (llog d)) |}, ROk)
-                      | Err e => (w, RErr e) | Fault f => (w, RFault f)
-                      end
-                  end
-              end
-          end
+      | Some (i, d) => set_at w i d (target_dest tg) s
+      end
+  | OAddDestId ids dn =>
+      match get_log_id_idx (logs w) ids 0 with
+      | Ok None => (w, RNoLog)
+      | Ok (Some (i, d)) => add_dest_at w i d dn
+      | Err e => (w, RErr e) | Fault f => (w, RFault f)
+      end
+  | OSetId ids dest s =>
+      match get_log_id_idx (logs w) ids 0 with
+      | Ok None => (w, RNoLog)
+      | Ok (Some (i, d)) => set_at w i d dest s
+      | Err e => (w, RErr e) | Fault f => (w, RFault f)
       end
   end.
 
@@ -331,7 +367,11 @@ Fixpoint log_ids (ls : list logdata) (ids : N) (m : msg) : res (list delivery) :
         else do y <- log_ids r ids m; Ok (x ++ y)
       else log_ids r ids m
   end.
-(** Logging::log( name, msg) *)
+(** Logging::getLog( const std::string& log_name) *)
+Definition get_log_name (ls : list logdata) (name : string) : option logdata :=
+  match find_log name ls 0 with Some (_, ld) => Some ld | None => None end.
+
+(** Logging::log( name, msg): its own loop over mLogs, first log with that name *)
 Definition log_name (ls : list logdata) (name : string) (m : msg) : res (list delivery) :=
   match find_log name ls 0 with
   | Some (_, ld) => log_message ld m
@@ -356,7 +396,20 @@ Definition discard_of (o : option logdata) (l : level) : res bool :=
 Definition discard_id (ls : list logdata) (ids : N) (l : level) : res bool :=
   do o <- get_log_id ls ids; discard_of o l.
 Definition discard_name (ls : list logdata) (name : string) (l : level) : res bool :=
-  discard_of (match find_log name ls 0 with Some (_, ld) => Some ld | None => None end) l.
+  discard_of (get_log_name ls name) l.
+
+(** the level-guarded macros  LOG_LEVEL( a, l) << class << text:
+      if (discard_by_level( a, LogLevel::l)) { } else StreamLog( a, ...).self() << LogLevel::l ...
+    StreamLog( id_t) throws for the id 0, StreamLog( name) for the empty name; its
+    destructor hands the message (level l, the class streamed in) to Logging::log( a, msg) *)
+Definition macro_ids (ls : list logdata) (ids : N) (m : msg) : res (list delivery) :=
+  do d <- discard_id ls ids (fst m);
+  if d : bool then Ok []
+  else if N.eqb ids 0 then Err ERuntime else log_ids ls ids m.
+Definition macro_name (ls : list logdata) (name : string) (m : msg) : res (list delivery) :=
+  do d <- discard_name ls name (fst m);
+  if d : bool then Ok []
+  else if is_empty name then Err ERuntime else log_name ls name m.
 
 (* ------------------------------------------------------------------ *)
 (** * The pinned code where it differs (kept for the refutation witnesses) *)
